@@ -2,7 +2,7 @@
    Statements only; proofs live in Proofs/.  Every theorem is closed by `exact` and
    followed by Print Assumptions. *)
 From HT Require Import Model.Str Model.Escape Model.Tree Model.Render Gen.Tables
-     Spec.CharMap Proofs.EscapeProofs.
+     Spec.CharMap Proofs.EscapeProofs Proofs.RenderContent.
 
 (* The model of html_escape(text) -- regex fast path, then sequential str.replace over the
    regenerated HTML_ESCAPE_TABLE in source order -- is the per-character map of the
@@ -40,6 +40,17 @@ Theorem C02_escape_app :
   forall a b : str, html_escape false (a ++ b) = html_escape false a ++ html_escape false b.
 Proof. exact (escape_app false). Qed.
 Print Assumptions C02_escape_app.
+
+(* Every path of the renderer: the strings that a successful rendering writes through
+   html_escape (the PTxt pieces, in output order) are exactly the plain-text leaves of the
+   tree that are not direct children of a script/style tag, in document order -- whether a
+   leaf is an only child (fast path), a first or a later sibling, after a block tag
+   (indented) or not, at any depth.  So every such leaf goes through the map above. *)
+Theorem C02_every_path :
+  forall (M : Type) (n : node M) (i : nat) (eol : str) (ps : list piece),
+    render_tag i eol n = Ok ps -> texts_of ps = escaped_text_leaves n.
+Proof. intros M. exact text_pieces. Qed.
+Print Assumptions C02_every_path.
 
 (* non-vacuity / sanity: the map on a string with all three metacharacters *)
 Example C02_example :
